@@ -74,8 +74,9 @@ def run_workers(prop, tier, seed, nshards, watchdog_s, replay=None):
                 problems.append('unreadable worker result: %s' % e)
                 continue
             if r.get('crash'):
+                if not any(p.startswith('worker crashed') for p in problems):
+                    sys.stderr.write(r['crash'][-1500:] + '\n')
                 problems.append('worker crashed: ' + r['crash'].strip().split('\n')[-1][:300])
-                sys.stderr.write(r['crash'] + '\n')
             else:
                 results.append(r)
         else:
@@ -135,8 +136,12 @@ def check(prop, tier, seed):
             unlisted.append(v)
         else:
             listed.setdefault(k['id'], (k, []))[1].append(v)
-    reasons = list(problems)
+    reasons = list(dict.fromkeys(problems))
     reasons += mod.floors(m, tier)
+    he = m['counters'].get('harness_errors', 0)
+    if he > max(3, 0.01 * m['counters'].get('cases', 0)):
+        reasons.append('%d harness errors (monitors could not cope with the observed behaviour); first: %s' % (
+            he, next((n['harness_error'].strip().split('\n')[-1] for n in m['notes'] if 'harness_error' in n), '?')))
     # evidence
     cov = dict(getattr(mod, 'coverage_extra', lambda m, t: {})(m, tier))
     cov.update({
